@@ -103,10 +103,15 @@ class Ctx:
         cmd = self.tlc_cmd(module, cfg, workers, extra, os.path.join(d, "md"))
         t = time.time()
         e = dict(os.environ)
-        e.setdefault("JAVA_TOOL_OPTIONS", "-Xss256m")
+        # the JVM would take 25% of the machine's memory per TLC process (and TLC a quarter of that again for its
+        # fingerprint set): cap the heap so that several processes side by side cannot exhaust the machine
+        jvm = "-Xss256m -Xmx%s" % ("4g" if (workers == 1 or cwd) else "8g")
+        e.setdefault("JAVA_TOOL_OPTIONS", jvm)
         if env:
             if "JAVA_TOOL_OPTIONS" in env:
-                env = dict(env, JAVA_TOOL_OPTIONS=env["JAVA_TOOL_OPTIONS"] + " -Xss256m")
+                if "-Xmx" in env["JAVA_TOOL_OPTIONS"]:
+                    jvm = "-Xss256m"
+                env = dict(env, JAVA_TOOL_OPTIONS=env["JAVA_TOOL_OPTIONS"] + " " + jvm)
             e.update(env)
         try:
             p = subprocess.run(["timeout", str(timeout)] + cmd, cwd=d, stdout=subprocess.PIPE,
@@ -183,7 +188,7 @@ class Ctx:
         drv = [self.drv()] + list(drv_args)
         t = time.time()
         e1 = dict(os.environ)
-        e1.setdefault("JAVA_TOOL_OPTIONS", "-Xss256m")
+        e1.setdefault("JAVA_TOOL_OPTIONS", "-Xss256m -Xmx6g")
         p1 = subprocess.Popen(cmd, cwd=d, stdout=subprocess.PIPE, stderr=subprocess.STDOUT, env=e1)
         p2 = subprocess.Popen(drv, stdin=p1.stdout, stdout=subprocess.PIPE, stderr=subprocess.STDOUT, text=True, env=self.go_env())
         p1.stdout.close()
@@ -207,7 +212,7 @@ class Ctx:
         shutil.copy(trace_path, os.path.join(d, trace_name))
         env = {}
         if dfs:
-            env["JAVA_TOOL_OPTIONS"] = "-Dtlc2.tool.queue.IStateQueue=StateDeque"
+            env["JAVA_TOOL_OPTIONS"] = "-Dtlc2.tool.queue.IStateQueue=StateDeque -Xmx12g"  # depth-first over a long trace: deep stack of states
         r = self.tlc(module, cfg, workers=1, timeout=timeout, what=what or "trace validation", count=True, cwd=d, env=env, expect_ok=False)
         if r.ok:
             return True, "", r
